@@ -104,6 +104,7 @@ fn shape_name(s: &Shape) -> String {
         Shape::Diamond(a, b) => format!("diamond({a:?},{b:?})").replace(' ', ""),
         Shape::Merge(n) => format!("merge({n})"),
         Shape::Packets(k) => format!("packets({k})"),
+        Shape::PacketsTail(k, t) => format!("packets({k},tail={t})"),
         Shape::VecPackets(v) => format!("vecpackets{v:?}").replace(' ', ""),
     }
 }
@@ -158,6 +159,8 @@ pub fn shapes(thorough: bool) -> Vec<Shape> {
     v.push(Shape::Diamond(Some(Stage::AddConst(1)), Some(Stage::MoveWait)));
     v.push(Shape::Merge(3));
     v.push(Shape::Packets(2));
+    v.push(Shape::PacketsTail(1, 1));
+    v.push(Shape::PacketsTail(2, 2));
     v.push(Shape::VecPackets(vec![1, 2, 1]));
     v.push(Shape::VecPackets(vec![2, 2]));
     v
